@@ -81,6 +81,8 @@ def render(h: dict[str, Any]) -> str:
             out.append("    pass")
         for f in c["fields"]:
             ann = PROP_KINDS[f["kind"]][0] if f["kind"] in PROP_KINDS else CHILD_KINDS[f["kind"]]
+            if f.get("quoted") and not h["postponed"]:
+                ann = '"' + ann + '"'  # a string annotation among real-type annotations
             fargs = []
             if f.get("default") is not None:
                 fargs.append(f"default={f['default']}")
@@ -473,10 +475,10 @@ class Gen:
             f["override"] = True
             return f
         self.nf += 1
-        name = r.choice(["f", "g", "a", "z", "m"]) + str(self.nf)
+        name = r.choice(["f", "g", "a", "z", "m", "_h", "_a"]) + str(self.nf)
         if r.random() < 0.55:
             kind = r.choice(list(PROP_KINDS))
-            f = {"name": name, "kind": kind, "init": True, "compare": True, "default": None}
+            f = {"name": name, "kind": kind, "init": True, "compare": True, "default": None, "quoted": r.random() < 0.3}
             x = r.random()
             if x < 0.15:
                 f["init"] = False
@@ -491,7 +493,9 @@ class Gen:
                 f["kw_only"] = True
             return f
         kind = r.choice(list(CHILD_KINDS))
-        f = {"name": name, "kind": kind, "init": True, "compare": True, "default": None}
+        if name.startswith("_"):
+            name = "c" + name[1:]
+        f = {"name": name, "kind": kind, "init": True, "compare": True, "default": None, "quoted": r.random() < 0.3}
         if not kw_only_cls or r.random() < 0.4:
             f["default"] = {"child": 'GLeaf("d")', "opt": "None", "union": "GOther(1)", "tuple": "()", "fixed": '(GLeaf("p"), GOther(2))'}[kind]
             if kind in ("child", "union", "fixed"):
